@@ -68,6 +68,12 @@ func TypeOf(input any) (TypeSpecifier, error) {
 	if oneOf := protofields.UnwrapOneofField(item, "choice"); oneOf != nil {
 		item = oneOf
 	}
+	// a resource in the wrapper it has as a bundle entry or contained resource is that resource
+	if item.ProtoReflect().Descriptor().Name() == "ContainedResource" {
+		if resource := protofields.UnwrapOneofField(item, "oneof_resource"); resource != nil {
+			item = resource
+		}
+	}
 	descriptor := item.ProtoReflect().Descriptor()
 	name := string(descriptor.Name())
 	if protofields.IsCodeField(item) {
